@@ -2650,7 +2650,9 @@ fn process_eh_frame_relocations<'data, 'scope, A: Arch<Platform = Elf>, R: Reloc
             while let Some((rel_index, rel)) = rel_iter.peek() {
                 let rel_offset = rel.offset();
                 if rel_offset < next_offset as u64 {
-                    let is_pc_begin = (rel_offset as usize - offset) == FDE_PC_BEGIN_OFFSET;
+                    // Relocations that aren't sorted by offset can belong to an earlier entry.
+                    let is_pc_begin =
+                        (rel_offset as usize).checked_sub(offset) == Some(FDE_PC_BEGIN_OFFSET);
 
                     if is_pc_begin && let Some(index) = rel.symbol() {
                         let elf_symbol = object.object.symbol(index)?;
